@@ -141,6 +141,33 @@ func familyFName(thorough bool) []*scen.Cell {
 					}
 					files["setup.go"] = setup
 					cells = append(cells, &scen.Cell{ID: id, Family: "F-name", Files: files, Meta: fnameMeta{v.id, imp == 1, tog}})
+					if tog[1] == 1 && tog[4] == 1 {
+						// the same notations in the opposite order (":match none" above ":getter"), and split over interface and method
+						rev := map[string]string{}
+						for n, s := range files {
+							rev[n] = s
+						}
+						rev["setup.go"] = strings.Replace(setup, "\t// :getter\n", "", 1)
+						rev["setup.go"] = strings.Replace(rev["setup.go"], "\t// :match none\n", "\t// :match none\n\t// :getter\n", 1)
+						rev["setup.go"] = strings.ReplaceAll(rev["setup.go"], "/c/"+id+"/", "/c/"+id+"_rev/")
+						cells = append(cells, &scen.Cell{ID: id + "_rev", Family: "F-name", Files: rev, Meta: fnameMeta{v.id, imp == 1, tog}})
+						split := map[string]string{}
+						for n, s := range files {
+							split[n] = s
+						}
+						split["setup.go"] = strings.Replace(setup, "\t// :match none\n", "", 1)
+						split["setup.go"] = strings.Replace(split["setup.go"], "type Convergen interface {", "// :match none\ntype Convergen interface {", 1)
+						split["setup.go"] = strings.ReplaceAll(split["setup.go"], "/c/"+id+"/", "/c/"+id+"_split/")
+						cells = append(cells, &scen.Cell{ID: id + "_split", Family: "F-name", Files: split, Meta: fnameMeta{v.id, imp == 1, tog}})
+					}
+					if tog[0] == 0 && tog[1] == 0 && srcPtr == 1 {
+						// the same run with -log: the log file must not swallow the stderr warnings
+						lf := map[string]string{}
+						for n, s := range files {
+							lf[n] = strings.ReplaceAll(s, "/c/"+id+"/", "/c/"+id+"_log/")
+						}
+						cells = append(cells, &scen.Cell{ID: id + "_log", Family: "F-name-with-log", Files: lf, Args: []string{"-log", "setup.go"}, Meta: fnameMeta{v.id, imp == 1, tog}})
+					}
 				})
 			}
 		}
@@ -153,10 +180,11 @@ func familyFName(thorough bool) []*scen.Cell {
 // counterpart.
 
 type f3Meta struct {
-	Dst, Src string
-	SrcPtr   int
-	DstPtr   int
-	Tog      []int
+	ViaGetter bool
+	Dst, Src  string
+	SrcPtr    int
+	DstPtr    int
+	Tog       []int
 }
 
 // member shapes; each gives the type expression for a field named N
@@ -218,6 +246,19 @@ func familyF3(thorough bool) []*scen.Cell {
 	}
 	for _, sd := range f3Shapes {
 		for _, ss := range f3Shapes {
+			// the source offers N through a getter only (:getter): the nested-struct branch is then reached from the getter pass
+			if !strings.Contains(ss.expr, "struct {") {
+				for tcast := 0; tcast < 2; tcast++ {
+					decls := f3Prelude + "\ntype S struct {\n\tn " + ss.expr + "\n\tK int\n}\n\nfunc (s *S) N() " + ss.expr + " { return s.n }\n\ntype D struct {\n\tN " + sd.expr + "\n\tK int\n}\n\n" + decoyInterface
+					setup := scen.SetupFile(true, decls, nil, []scen.MethodDecl{{Notations: scen.Toggles(0, 1, 0, tcast, 0), Sig: "Conv(*S) *D"}})
+					cells = append(cells, &scen.Cell{
+						ID:     fmt.Sprintf("f3g_%s_%s_%d", sd.id, ss.id, tcast),
+						Family: "F3-struct-shapes-via-getter",
+						Files:  map[string]string{"setup.go": setup},
+						Meta:   f3Meta{ViaGetter: true, Dst: sd.id, Src: ss.id, Tog: []int{0, 1, 0, tcast, 0}},
+					})
+				}
+			}
 			for emb := 0; emb < 2; emb++ {
 				if emb == 1 && (strings.Contains(sd.expr, "struct") || strings.HasPrefix(sd.expr, "*") || sd.expr == "int" ||
 					strings.Contains(ss.expr, "struct") || strings.HasPrefix(ss.expr, "*") || ss.expr == "int") {
@@ -476,7 +517,32 @@ func familyF4(thorough bool) []*scen.Cell {
 		}
 	}
 	// ---- :literal dims: dst, text, case, competing
-	texts := []string{"7", `"s"`, "I2I(3)", "ext.Itoa(1)", "src.A", "N{A: 1}", "nil", "1 + 2"}
+	texts := []string{"7", `"s"`, "I2I(3)", "ext.Itoa(1)", "src.A", "N{A: 1}", "nil", "1 + 2", `"%d of %d%%"`, "7 % 4"}
+	// several :literal lines on one method, each with its own destination
+	for i, ns := range [][]string{
+		{":literal X 7", `:literal Y "pet"`},
+		{`:literal Y "a"`, ":literal X 1", ":literal M.C 3"},
+		{":literal M.A 5", ":literal M.C 6", ":map A X"},
+	} {
+		for style := 0; style < 2; style++ {
+			add(f4Cell(fmt.Sprintf("f4lits_%d_%d", i, style), "literal", ns, 0, 0, style, 0, nil))
+		}
+	}
+	// a converter taking a pointer whose argument is only reachable through an opted-in conversion: & of a conversion is not addressable
+	for i, ns := range [][]string{
+		{":typecast", ":conv P2I64 A X"},
+		{":stringer", ":conv PS2I St X"},
+		{":typecast", ":conv P2I64 N.A X"},
+		{":typecast", ":conv I642I A X"},
+	} {
+		for err := 0; err < 2; err++ {
+			decl := strings.Replace(f4Decls, "func I2I(i int) int", "type Status int\n\nfunc (s Status) String() string { return \"st\" }\n\nfunc P2I64(p *int64) int { return int(*p) }\nfunc PS2I(p *string) int { return len(*p) }\nfunc I642I(i int64) int { return int(i) }\nfunc I2I(i int) int", 1)
+			decl = strings.Replace(decl, "\tg int\n}", "\tg int\n\tSt Status\n}", 1)
+			sig := map[int]string{0: "Conv(*S) *D", 1: "Conv(*S) (*D, error)"}[err]
+			setup := scen.SetupFile(true, decl, nil, []scen.MethodDecl{{Notations: ns, Sig: sig}})
+			add(&scen.Cell{ID: fmt.Sprintf("f4pconv_%d_%d", i, err), Family: "F4-conv", Files: map[string]string{"setup.go": setup}, Meta: f4Meta{Kind: "conv", Line: strings.Join(ns, " ; "), Err: err}})
+		}
+	}
 	scen.Odometer([]int{len(f4Dst), len(texts), 2, 2}, func(d []int) {
 		notes := []string{":literal " + f4Dst[d[0]] + " " + texts[d[1]]}
 		if d[3] == 1 {
@@ -762,6 +828,24 @@ func f6Cell(m f6Meta) *scen.Cell {
 
 func familyF6(thorough bool) []*scen.Cell {
 	var cells []*scen.Cell
+	for i, variant := range []struct {
+		notes          []string
+		sfield, dfield string
+	}{
+		{[]string{":typecast"}, "A int\n\tB int", "A dmodel.Status\n\tB smodel.Status"},
+		{[]string{":typecast"}, "A []int\n\tB []int", "A []dmodel.Status\n\tB []smodel.Status"},
+		{[]string{":typecast"}, "A *int\n\tB *int", "A *dmodel.Status\n\tB *smodel.Status"},
+		{nil, "A dmodel.Status\n\tB smodel.Status", "A dmodel.Status\n\tB smodel.Status"},
+	} {
+		var sb strings.Builder
+		sb.WriteString("//go:build convergen\n\npackage x\n\nimport (\n\tdmodel \"example.com/m/ext/dmodel\"\n\tsmodel \"example.com/m/ext/smodel\"\n)\n\n")
+		sb.WriteString("type LS struct {\n\t" + variant.sfield + "\n}\n\ntype LD struct {\n\t" + variant.dfield + "\n}\n\nvar _ dmodel.Status\nvar _ smodel.Status\n\ntype Convergen interface {\n")
+		for _, n := range variant.notes {
+			sb.WriteString("\t// " + n + "\n")
+		}
+		sb.WriteString("\tConv(*LS) *LD\n}\n")
+		cells = append(cells, &scen.Cell{ID: fmt.Sprintf("f6same_%d", i), Family: "F6-layouts", Files: map[string]string{"setup.go": sb.String()}, Meta: f6Meta{Imp: 1, Use: 10 + i}})
+	}
 	scen.Odometer([]int{len(f6Imports), 9, 2, len(f6Namings)}, func(d []int) {
 		m := f6Meta{Imp: d[0], Use: d[1], TypesAt: d[2], Naming: d[3]}
 		if !thorough && m.Naming > 1 && m.Use > 1 {
